@@ -5,18 +5,22 @@
 (* key, recorded by harness/drivers/onetime) must be behaviours of the     *)
 (* descriptive OneTime.tla, and the real verdict of every request ("end")  *)
 (* must be the verdict the specification derives.  Traces are              *)
-(* concatenated; "reset" + "init" start the next one.                      *)
+(* concatenated; "reset" + "init" start the next one.  A trace that leaves *)
+(* the specification (TLeave) or breaks a property invariant (Judge) is    *)
+(* REPORTED and the run goes on: one TLC run classifies the whole file     *)
+(* (tools/props/onetime.py reads the TRACE-... lines).                     *)
 (***************************************************************************)
 EXTENDS MCOneTime, IOUtils
 
 TraceLog == ndJsonDeserialize(IOEnv.VERIF_TRACE)
-VARIABLE l
-tvars == <<vars, l>>
+VARIABLES l,      \* next line of the log
+          skip    \* TRUE: the current trace left the specification; its remaining events are consumed unchecked
+tvars == <<vars, l, skip>>
 
 Ev == TraceLog[l]
 IsEvent(e) == l <= Len(TraceLog) /\ Ev.ev = e /\ l' = l + 1
 
-TReset == IsEvent("reset") /\ UNCHANGED vars
+TReset == IsEvent("reset") /\ skip' = FALSE /\ UNCHANGED vars
 
 \* requests that do not take part in this trace are parked at control point "absent"
 TInit == /\ IsEvent("init")
@@ -54,15 +58,31 @@ TTick == /\ IsEvent("tick") /\ Tick
 TStutter == /\ l <= Len(TraceLog) /\ Ev.ev \in {"begin", "other"}
             /\ l' = l + 1 /\ UNCHANGED vars
 
-TraceNext == TReset \/ TInit \/ TOp \/ TEnd \/ TTick \/ TStutter
+Matching == TInit \/ TOp \/ TEnd \/ TTick \/ TStutter
+
+\* the property invariants are evaluated on the state reconstructed from the REAL execution; a failure is reported
+\* (one line per event) instead of stopping TLC, so that one run classifies every trace of the file
+Report(name, ok) == IF ok THEN TRUE ELSE PrintT(<<"TRACE-INVARIANT", name, l>>)
+Judge == /\ Report("AtMostOnce", AtMostOnce')
+         /\ Report("DeadAfterFailedRedemption", DeadAfterFailedRedemption')
+         /\ Report("NoSuccessAfterExpiry", NoSuccessAfterExpiry')
+
+TFollow == ~skip /\ Matching /\ skip' = FALSE /\ Judge
+\* no action of the specification explains the next real event: report it and skip the rest of this trace
+TLeave == /\ ~skip /\ l <= Len(TraceLog) /\ Ev.ev # "reset" /\ ~ENABLED Matching
+          /\ PrintT(<<"TRACE-DRIFT-AT", l>>)
+          /\ skip' = TRUE /\ l' = l + 1 /\ UNCHANGED vars
+TSkip == skip /\ l <= Len(TraceLog) /\ Ev.ev # "reset" /\ l' = l + 1 /\ UNCHANGED <<vars, skip>>
+
+TraceNext == TReset \/ TFollow \/ TLeave \/ TSkip
 TraceInit ==
     /\ kind = "code" /\ flav = [r \in Reqs |-> "good"] /\ cache = "present"
     /\ pc = [r \in Reqs |-> "absent"] /\ seen = [r \in Reqs |-> FALSE] /\ out = [r \in Reqs |-> "pending"]
     /\ ticks = 0 /\ lateRef = [r \in Reqs |-> FALSE] /\ lateTick = [r \in Reqs |-> FALSE] /\ hist = <<>>
-    /\ l = 1 /\ TLCSet(1, 1)
+    /\ l = 1 /\ skip = FALSE /\ TLCSet(1, 1)
 TraceSpec == TraceInit /\ [][TraceNext]_tvars
 
-\* acceptance: the whole file was consumed (high-water mark kept in a TLC register; -workers 1)
+\* the whole file must have been consumed (high-water mark kept in a TLC register; -workers 1)
 Progress == TLCSet(1, IF l > TLCGet(1) THEN l ELSE TLCGet(1))
 TraceAccepted ==
     \/ TLCGet(1) = Len(TraceLog) + 1
